@@ -81,6 +81,25 @@ pub fn hostile_attr(rng: &mut Rng, marker: &str) -> String {
     }
     s.push_str(marker);
     body(rng, 0, &mut s);
+    if rng.chance(0.06) {
+        // deep nesting: depth counters of every plausible width must cope
+        let d = *rng.pick(&[100usize, 126, 127, 128, 254, 255, 256, 257, 300, 1000, 32767, 32768, 65535, 65536, 70000]);
+        let d = if d > 2000 && !rng.chance(0.15) { 255 + rng.below(50) as usize } else { d };
+        let kinds = [('(', ')'), ('[', ']'), ('{', '}')];
+        let mixed = rng.chance(0.5);
+        let k0 = rng.below(3) as usize;
+        let mut closers = Vec::with_capacity(d);
+        for i in 0..d {
+            let (o, c) = kinds[if mixed { (k0 + i * 7 / 3) % 3 } else { k0 }];
+            s.push(o);
+            closers.push(c);
+        }
+        s.push_str(rng.pick_str(&["", "x", "中", " "]));
+        while let Some(c) = closers.pop() {
+            s.push(c);
+        }
+        body(rng, 0, &mut s);
+    }
     if rng.chance(0.3) {
         // a multi-byte character directly before the closing bracket
         s.push_str(rng.pick_str(&["é", "中", "𝄞", "\u{a0}"]));
@@ -472,6 +491,14 @@ impl Text {
         for t in &mut m.terms {
             t.ty = random_type(rng, 0);
         }
+        if rng.chance(0.05) {
+            // deep nesting, the nested type in any argument position
+            let d = *rng.pick(&[9usize, 17, 33, 64, 100, 128, 129, 130, 131, 160, 200, 255, 256]);
+            let k = rng.below(m.terms.len());
+            m.terms[k].ty = crate::model::deep_type(rng, d);
+            w.count("grammars-with-deeply-nested-payload-type");
+            w.max("max-payload-type-nesting", d as u64);
+        }
         if rng.chance(0.4) {
             confusable_terminal_names(&mut m, rng);
             w.count("grammars-with-confusable-terminal-names");
@@ -712,7 +739,23 @@ impl Text {
         // accepted sources
         let m = small_model(rng);
         let mut src = m.render();
-        match rng.below(8) {
+        match rng.below(11) {
+            8 => {
+                // Unicode whitespace the tokenizer skips: part of the hashed text all the same
+                let ws = rng.pick_str(&["\u{2028}", "\u{85}", "\u{3000}", "\u{c}", "\u{b}", "\u{2029}", "\u{1680}", "\u{205f}"]);
+                src = match rng.below(3) {
+                    0 => format!("{ws}{src}"),
+                    1 => format!("{src}{ws}"),
+                    _ => src.replacen(' ', ws, 1 + rng.below(3) as usize),
+                };
+            }
+            9 | 10 => {
+                // invisible non-whitespace characters a lenient front end might strip (these are
+                // lexical errors, so normally nothing is emitted and nothing is checked)
+                let inv = rng.pick_str(&["\u{feff}", "\u{200b}", "\0", "\u{1a}", "\u{2060}", "\u{180e}", "\u{200e}", "\u{fffe}", "\u{ad}"]);
+                src = if rng.chance(0.6) { format!("{inv}{src}") } else { format!("{src}{inv}") };
+                w.count("lenient-front-end-probes");
+            }
             0 => src = src.trim_end().to_string(),
             1 => src = src.replace('\n', "\r\n"),
             2 => src.push_str("// é 中 𝄞\n"),
